@@ -69,7 +69,7 @@ PROPS = {
     'C11': dict(units=['loop'], dep_units=['mapper', 'converter'], level='proof', trusted_base=TB_LOOP, assumptions=AS_LOOP, witness='loop', rests_on=['C09']),
     'C12': dict(units=['loop'], dep_units=['mapper'], level='proof', trusted_base=TB_LOOP, assumptions=AS_LOOP, witness='loop'),
     'C20': dict(units=['loop'], level='proof', trusted_base=TB_LOOP, assumptions=AS_LOOP, witness='loop', extras=['real_driver_pipes_c20']),
-    'C14': dict(units=['converter', 'mapper', 'glue', 'frontend'], level='proof', trusted_base=TB_MAPPER + TB_CONV[4:], assumptions=AS_CONV + AS_MAPPER, witness='loader', extras=['loader_fuzz_bounded']),
+    'C14': dict(units=['converter', 'mapper', 'glue', 'frontend'], level='proof', trusted_base=TB_MAPPER + TB_CONV[4:], assumptions=AS_CONV + AS_MAPPER, witness='loader', extras=['loader_fuzz_bounded', 'hek_bounded']),
     'C13': dict(units=['converter'], level='proof', trusted_base=TB_CONV + [
                     'E5 accessors: CHAR_ACCESS_MAP.get / US_KEYBOARD_LAYOUT.get are assumed to be functions of their argument (uninterpreted cam_entry / ukl_row); that these functions ARE the US-QWERTY layout is decided by the complete enumeration tables_enum (every Unicode scalar value, every row), reported as enumerative',
                     'assumed contract on <Vec<T> as Extend<&T>>::extend (appends the items the argument yields; a &Vec yields its elements in order), used for the trigger-side and output-side key lists'],
